@@ -4,6 +4,7 @@ package main
 
 import (
 	"go/types"
+	"strings"
 
 	"golang.org/x/tools/go/ssa"
 )
@@ -159,7 +160,9 @@ func (m *Model) anchorBreakEdge() *ssa.Function {
 		// constructs the helper node itself or through a constructor of the package ...
 		mk := makesVirtual(f)
 		if !mk {
-			for _, s := range staticCalls(f, func(c *ssa.Function) bool { return pkgPathOf(c) == pkgPathOf(f) && m.effects[c] != nil && makesVirtual(c) }) {
+			for _, s := range staticCalls(f, func(c *ssa.Function) bool {
+				return pkgPathOf(c) == pkgPathOf(f) && m.effects[c] != nil && makesVirtual(c)
+			}) {
 				_ = s
 				mk = true
 			}
@@ -251,13 +254,22 @@ func (m *Model) anchorReverse() *ssa.Function {
 		if shortPkg(pkgPathOf(f)) != "internal/graph" || f.Parent() != nil || m.FuncIsPosctl(f) || f.Signature.Recv() == nil {
 			continue
 		}
+		// stores the three fields itself or through a helper of the package, and moves the edge between adjacency lists
 		w := map[string]bool{}
+		nList := 0
 		for _, x := range m.effects[f].Writes {
-			if x.Via == "" && !x.Fresh {
+			if !x.Fresh && (x.Via == "" || strings.HasPrefix(x.Via, "internal/graph.") || strings.Contains(x.Via, "internal/graph.")) {
 				w[x.Loc] = true
 			}
 		}
-		if w[igEdge+".From"] && w[igEdge+".To"] && w[igEdge+".IsReversed"] {
+		eachInstr(f, func(in ssa.Instruction) {
+			if ci, ok := in.(ssa.CallInstruction); ok {
+				if c := ci.Common().StaticCallee(); c != nil && m.fx.listPrim[c] != "" {
+					nList++
+				}
+			}
+		})
+		if w[igEdge+".From"] && w[igEdge+".To"] && w[igEdge+".IsReversed"] && nList >= 2 {
 			found = append(found, f)
 		}
 	}
